@@ -15,7 +15,7 @@ RULE = ("6 memento functions x 3 arguments whose scripted bodies return a value 
         "forget, forget_all, memento, restart, evict, clock jump on filesystem, filesystem+cache (4 KiB..4 MiB) and memory "
         "backends; non-trivial = >= 1 repeat call after a first call; distinct = event-log digest")
 ASSUMPTIONS = ["equality is type-aware deep equality (bool != int, date != Timestamp, dtype/index compared, NaN == NaN)",
-               "under ignore_result a memoized exception may or may not be re-raised (docstring and code disagree; not asserted)"]
+               "under ignore_result exceptions still propagate, memoized ones included (as ignore_result() documents and as a fresh exception does)"]
 COMPONENTS = {"real": ["twosigma.memento runner, codecs, exception replay, storage backends, memory cache", "tmpfs", "fork lifetimes"],
               "stub": ["scripted function bodies (values come from a table through the builtins side channel)", "uuid4, clock"]}
 REACH = ["first_calls", "repeat_calls", "served_after_restart", "served_after_evict", "exceptions_replayed", "forgets",
@@ -280,12 +280,13 @@ def execute(case):
                                 bad("non-memoized-exception-not-raised-every-time", feats, rec)
                                 break
                             continue
-                        if was and op[3] == "ignore":
-                            # triage item: memoized exception under ignore_result (returns None in this code base)
+                        if was and op[3] == "ignore" and out[0] != "raised":
+                            # ignore_result documents that exceptions still propagate; a fresh one does
                             if rec["runs"] != 0:
                                 bad("body-re-executed", feats, rec)
                                 break
-                            continue
+                            bad("memoized-exception-swallowed-under-ignore-result", {}, rec)
+                            break
                         if out[0] != "raised":
                             bad("exception-not-raised", feats, rec)
                             break
